@@ -161,7 +161,7 @@ func mustParseType(s string) ast.Expr {
 }
 
 func ident(s string) string {
-	r := strings.NewReplacer("*", "P", "[]", "S", "[", "A", "]", "_", ".", "_", " ", "")
+	r := strings.NewReplacer("*", "P", "[]", "S", "[", "A", "]", "_", ".", "_", "/", "_", " ", "")
 	return r.Replace(s)
 }
 
@@ -207,6 +207,19 @@ var identTypes = []string{
 // underTypes: the same through Type.Underlying().
 var underTypes = []string{"int", "string", "bool", "[]byte", "*int", "[4]int", "[0]int", "**target.S1", "[0]string"}
 
+// crossIfaces: interfaces for the cross-universe Implements pairs (see buildRules).
+var crossIfaces = []string{
+	// package not imported by the probe file, method signatures mention named types of packages it imports
+	"database/sql/driver.Pinger", "database/sql/driver.SessionResetter", "compress/flate.Resetter", "image/draw.Image",
+	// not imported, embeds named interfaces / basic types only
+	"compress/flate.Reader", "encoding.TextMarshaler", "flag.Value",
+	// imported by the probe file, named types in the signatures
+	"context.Context", "io.WriterTo", "image.Image",
+}
+
+// crossStructs: structs of packages the probe file does not import whose fields have types of packages it does.
+var crossStructs = []string{"log.Logger", "text/scanner.Scanner", "compress/flate.ReadError"}
+
 var arrLens = []int64{0, 1, 2, 3, 4, 5, 7, 8, 16, 1000}
 
 func buildRules() *ruleset {
@@ -224,6 +237,58 @@ func buildRules() *ruleset {
 		rs.pair("impl_"+it.id, "Implements(`"+it.iface+"`)", body,
 			func(o *oenv, T types.Type) bool { return types.Implements(T, o.iface(it.iface)) })
 	}
+
+	// ---------------------------------------------------------------- Implements across type-check universes
+	// The interface comes from the engine's importer, ctx.Type from the target's type-checker: when the target does
+	// not import the interface's package, the named types in the method signatures (context.Context, io.Reader,
+	// color.Color ...) are different objects on the two sides and only a by-name comparison (xtypes) agrees with
+	// what the built-in predicate and a single-universe go/types answer. Classes: interface package imported by the
+	// target / not imported; signatures with named types / an embedded named interface / basic types only.
+	for _, it := range crossIfaces {
+		it := it
+		id := ident(it)
+		rs.pair("impl_x_"+id, "Implements(`"+it+"`)", "return types.Implements(ctx.Type, ctx.GetInterface(`"+it+"`))",
+			func(o *oenv, T types.Type) bool { return types.Implements(T, o.iface(it)) })
+		rs.direct("ptr_impl_x_"+id, "iface := ctx.GetInterface(`"+it+"`)\nreturn types.Implements(types.NewPointer(ctx.Type), iface)",
+			func(o *oenv, T types.Type) bool { return types.Implements(types.NewPointer(T), o.iface(it)) })
+	}
+	rs.direct("elem_impl_x_pinger", "p := types.AsPointer(ctx.Type)\nif p == nil {\n\treturn false\n}\nreturn types.Implements(p.Elem(), ctx.GetInterface(`database/sql/driver.Pinger`))",
+		func(o *oenv, T types.Type) bool {
+			p := oPtr(T)
+			return p != nil && types.Implements(p.Elem(), o.iface("database/sql/driver.Pinger"))
+		})
+	// Identical across universes: the types of the fields of a struct the target cannot name (its package is not
+	// imported) are named types of packages the target does import
+	for _, st := range crossStructs {
+		st := st
+		rs.direct("ident_x_field_"+ident(st), `
+s := types.AsStruct(ctx.GetType(`+"`"+st+"`"+`).Underlying())
+if s == nil {
+	return false
+}
+i := 0
+for i < s.NumFields() {
+	if types.Identical(ctx.Type, s.Field(i).Type()) {
+		return true
+	}
+	if types.Identical(s.Field(i).Type(), types.NewPointer(ctx.Type)) {
+		return true
+	}
+	i++
+}
+return false`, func(o *oenv, T types.Type) bool {
+			s := oStruct(o.lookup(st).Underlying())
+			for i := 0; s != nil && i < s.NumFields(); i++ {
+				if types.Identical(T, s.Field(i).Type()) || types.Identical(s.Field(i).Type(), types.NewPointer(T)) {
+					return true
+				}
+			}
+			return false
+		})
+	}
+	rs.pair("ident_x_log_mutex", "Is(`sync.Mutex`)",
+		"s := types.AsStruct(ctx.GetType(`log.Logger`).Underlying())\nmu := ctx.GetType(`sync.Mutex`)\ni := 0\nfor i < s.NumFields() {\n\tif types.Identical(s.Field(i).Type(), mu) {\n\t\treturn types.Identical(ctx.Type, s.Field(i).Type())\n\t}\n\ti++\n}\nreturn types.Identical(ctx.Type, mu)",
+		func(o *oenv, T types.Type) bool { return types.Identical(T, o.lookup("sync.Mutex")) })
 
 	// ---------------------------------------------------------------- As* on the type / its underlying type
 	type shape struct {
